@@ -422,6 +422,10 @@ class Interp:
                     return VReal(q)
                 return VReal(ra - rb * q)
             if opn == "Pow":
+                sa_, sb_ = z3.simplify(ta), z3.simplify(tb)
+                if ka == "int" and kb == "int" and z3.is_int_value(sa_) and z3.is_int_value(sb_) and \
+                        0 <= sb_.as_long() <= 4096:
+                    return VInt(z3.IntVal(sa_.as_long() ** sb_.as_long()))
                 if z3.is_int_value(tb) and kb == "int" and 0 <= tb.as_long() <= 4:
                     r = z3.IntVal(1) if ka == "int" else z3.RealVal(1)
                     for _ in range(tb.as_long()):
